@@ -339,6 +339,108 @@ def sc_close_during_reconnect_wait():
         peer.close()
 
 
+class MiniLoop:
+    """A minimal external dispatcher with the interface WebSocketApp expects of one (the `rel` package): read(sock, callback),
+    timeout(seconds, callback, *args), signal(sig, callback), abort(), buffwrite(sock, data, send, on_disconnect)."""
+
+    def __init__(self):
+        self.readers, self.timers, self.seq, self.aborted = {}, [], 0, False
+
+    def signal(self, sig, callback):
+        pass
+
+    def abort(self):
+        self.aborted = True
+
+    def read(self, sock, callback):
+        self.readers[sock] = callback
+
+    def timeout(self, seconds, callback, *args):
+        import heapq
+        self.seq += 1
+        heapq.heappush(self.timers, (time.time() + seconds, self.seq, callback, args))
+
+    def buffwrite(self, sock, data, send, on_disconnect):
+        send(sock, data)
+
+    def run(self, until, deadline):
+        import heapq
+        import select
+        while not self.aborted and not until() and time.time() < deadline:
+            for s_ in [x for x in self.readers if x.fileno() < 0]:
+                del self.readers[s_]
+            wait = 0.02
+            if self.timers:
+                wait = max(0.0, min(wait, self.timers[0][0] - time.time()))
+            socks = list(self.readers)
+            ready = select.select(socks, [], [], wait)[0] if socks else (time.sleep(wait) or [])
+            for s_ in ready:
+                cb = self.readers.get(s_)
+                if cb is not None and not cb():
+                    self.readers.pop(s_, None)
+            while self.timers and self.timers[0][0] <= time.time():
+                _, _, cb, args = heapq.heappop(self.timers)
+                cb(*args)
+
+
+def run_app_external(scripts, timeout=5.0, behaviours=None, **run_kwargs):
+    """like run_app, with an external dispatcher: run_forever registers the callbacks and returns; the loop runs here."""
+    import websocket
+    peer = Peer(scripts)
+    trace = []
+    behaviours = dict(behaviours or {})
+
+    def mk(name):
+        def cb(app, *args):
+            trace.append((name,) + tuple(type(a).__name__ if isinstance(a, BaseException) else a for a in args))
+            if behaviours.get(name) == "close":
+                app.close()
+        return cb
+    names_ = ("on_open", "on_message", "on_error", "on_close", "on_reconnect")
+    app = websocket.WebSocketApp(f"ws://127.0.0.1:{peer.port}/", **{n: mk(n) for n in names_})
+    loop = MiniLoop()
+    try:
+        ret = app.run_forever(dispatcher=loop, **run_kwargs)
+        loop.run(lambda: any(t[0] == "on_close" for t in trace), time.time() + timeout * PATIENCE[0])
+        settle = time.time() + 0.5
+        loop.run(lambda: False, settle)   # anything still scheduled after on_close (a stray reconnect) gets its chance
+    finally:
+        for sth in list(peer.threads):
+            sth.join(1.5 * PATIENCE[0])
+        peer.close()
+    return dict(trace=trace, ret=ret, peer=peer, app=app)
+
+
+def sc_external_reconnect():
+    """external dispatcher: loss, a rejected attempt, then a connection that the server closes (C15, external-dispatcher half)."""
+    iv = 0.2
+    r = run_app_external([[("send", F(1, 1, b"a")), ("sleep", 0.05), ("eof",)], [("reject", 503)],
+                          [("send", F(1, 1, b"b")), ("sleep", 0.1), ("send", CLOSE_BYE), ("until_close", 0.5)]], reconnect=iv)
+    tr = r["trace"]
+    nm = [t[0] for t in tr]
+    p = _expect("external-reconnect", nm.count("on_close"), 1, "on_close calls")
+    p += _expect("external-reconnect", nm[-1:] , ["on_close"], "last callback")
+    p += _expect("external-reconnect", [t for t in tr if t[0] in ("on_open", "on_reconnect", "on_message")],
+                 [("on_open",), ("on_message", "a"), ("on_reconnect",), ("on_message", "b")], "open / reconnect / message callbacks")
+    p += _expect("external-reconnect", len(r["peer"].accept_times), 3, "connection attempts (lost, rejected, accepted; none after the server's close)")
+    at = r["peer"].accept_times
+    for a_, b_ in zip(at, at[1:]):
+        if b_ - a_ < iv * 0.9:
+            p.append(f"external-reconnect: attempt only {b_ - a_:.3f}s after the previous one (interval {iv})")
+    return p
+
+
+def sc_external_close_in_on_error():
+    """external dispatcher: the application calls close() inside on_error: the run ends, no further connection attempt."""
+    r = run_app_external([[("reject", 503)], [("sleep", 0.3)], [("sleep", 0.3)]], reconnect=0.2, behaviours={"on_error": "close"}, timeout=3.0)
+    nm = [t[0] for t in r["trace"]]
+    p = _expect("external-close-in-on_error", len(r["peer"].accept_times), 1, "connection attempts (none after close())")
+    p += _expect("external-close-in-on_error", nm.count("on_close"), 1, "on_close calls")
+    if "on_open" in nm or "on_reconnect" in nm:
+        p.append(f"external-close-in-on_error: connected again after close(): {nm}")
+    return p
+
+
 def sc_close_no_reconnect():
     r = run_app([[("send", CLOSE_BYE), ("until_close", 0.5)]], reconnect=0.1, timeout=3.0)
     time.sleep(0.3)
@@ -394,12 +496,13 @@ SCENARIOS = dict(detect_window=sc_detect_window, traffic=sc_traffic, eof=sc_eof,
                  close_empty_body=sc_close_empty_body, reconnect=sc_reconnect, close_no_reconnect=sc_close_no_reconnect, ping=sc_ping,
                  ping_timeout=sc_ping_timeout, interrupt_in_callback=sc_interrupt_in_callback,
                  interrupt_in_on_close=sc_interrupt_in_on_close,
-                 close_during_reconnect_wait=sc_close_during_reconnect_wait)
+                 close_during_reconnect_wait=sc_close_during_reconnect_wait, external_reconnect=sc_external_reconnect,
+                 external_close_in_on_error=sc_external_close_in_on_error)
 BY_PROPERTY = {
     "C13": ["traffic", "callback_raises", "close_in_message"],
     "C14": ["traffic", "eof", "close_in_open", "close_in_message", "protocol_error", "second_run", "close_empty_body", "callback_raises",
             "interrupt_in_callback", "interrupt_in_on_close"],
-    "C15": ["reconnect", "close_no_reconnect", "eof", "close_during_reconnect_wait"],
+    "C15": ["reconnect", "close_no_reconnect", "eof", "close_during_reconnect_wait", "external_reconnect", "external_close_in_on_error"],
     "C16": ["ping", "ping_timeout"],
 }
 
